@@ -27,6 +27,17 @@ def digest(o):
     return hashlib.sha256(jdump(o, sort_keys=True).encode()).hexdigest()[:16]
 
 
+def _shrink(w, limit=20000):
+    """witnesses are replayed from the case index; very long data lists are replaced by a description"""
+    if isinstance(w, dict):
+        return {k: _shrink(v, limit) for k, v in w.items()}
+    if isinstance(w, (list, tuple)):
+        if len(w) > limit:
+            return "<%d items, first %r; regenerated from the case index on replay>" % (len(w), w[:3])
+        return [_shrink(v, limit) for v in w]
+    return w
+
+
 class Ctx:
     """collects what one case observed; merged by the worker"""
 
@@ -57,4 +68,4 @@ class Ctx:
         """mech: key of the mechanism a classifier *proved* explains this witness (None: unexplained)"""
         if kind:
             self.count("violation_kind:" + kind)
-        self.violations.append({"what": what, "witness": witness, "mech": mech, "index": self.index})
+        self.violations.append({"what": what, "witness": _shrink(witness), "mech": mech, "index": self.index})
